@@ -278,6 +278,59 @@ class Impl:
             pass
         return "ok"
 
+    def op_reads(self, s):
+        """a barrage of read-only calls (every query, statistic and exporter, method and dn.* forms, also the rarely
+        used argument forms): none of them may change the graph, which the later dumps and queries would show"""
+        G = self.G(s)
+        nodes = list(G._node)[:3]
+        ts = list(G.snapshots)[:2] + [None]
+
+        def quiet(fn):
+            try:
+                r = fn()
+                if hasattr(r, "__next__"):
+                    for _ in zip(range(200), r):
+                        pass
+            except Exception:  # noqa
+                pass
+        for t in ts:
+            quiet(lambda: G.nodes(t)); quiet(lambda: G.interactions(t=t)); quiet(lambda: G.degree(t=t)); quiet(lambda: G.size(t))
+            quiet(lambda: G.number_of_nodes(t)); quiet(lambda: G.number_of_interactions(t=t)); quiet(lambda: dn.density(G, t))
+            quiet(lambda: dn.degree_histogram(G, t)); quiet(lambda: list(dn.non_interactions(G, t)))
+            for n in nodes:
+                quiet(lambda: G.neighbors(n, t)); quiet(lambda: G.degree(n, t)); quiet(lambda: G.has_node(n, t))
+                quiet(lambda: list(dn.all_neighbors(G, n, t))); quiet(lambda: list(dn.non_neighbors(G, n, t)))
+                if G.is_directed():
+                    quiet(lambda: G.successors(n, t)); quiet(lambda: G.predecessors(n, t)); quiet(lambda: G.in_degree(n, t)); quiet(lambda: G.out_degree(n, t))
+                    quiet(lambda: G.in_interactions([n], t)); quiet(lambda: G.out_interactions([n], t))
+                for m in nodes:
+                    quiet(lambda: G.has_interaction(n, m, t)); quiet(lambda: G.number_of_interactions(n, m, t))
+        quiet(lambda: list(G.stream_interactions())); quiet(lambda: G.temporal_snapshots_ids()); quiet(lambda: G.interactions_per_snapshots())
+        quiet(lambda: G.avg_number_of_nodes()); quiet(lambda: G.inter_event_time_distribution())
+        for n in nodes:
+            quiet(lambda: G.get_node_snapshots(n)); quiet(lambda: G.inter_event_time_distribution(n))
+            if G.is_directed():
+                quiet(lambda: G.inter_in_event_time_distribution(n)); quiet(lambda: G.inter_out_event_time_distribution(n))
+            for m in nodes:
+                quiet(lambda: G.inter_event_time_distribution(n, m))
+                if G.is_directed():
+                    quiet(lambda: G.inter_in_event_time_distribution(n, m)); quiet(lambda: G.inter_out_event_time_distribution(n, m))
+        if not G.is_directed():
+            for name in ("coverage", "uniformity", "density"):
+                quiet(lambda: getattr(G, name)())
+            for n in nodes:
+                quiet(lambda: G.node_contribution(n)); quiet(lambda: G.node_density(n)); quiet(lambda: G.node_presence(n))
+                for m in nodes:
+                    quiet(lambda: G.node_pair_uniformity(n, m)); quiet(lambda: G.pair_density(n, m)); quiet(lambda: G.edge_contribution(n, m))
+            for t in ts[:-1]:
+                quiet(lambda: G.snapshot_density(t))
+        for t in ts[:1]:
+            quiet(lambda: G.time_slice(t)); quiet(lambda: dn.time_slice(G, t, t + 2))
+        quiet(lambda: G.to_undirected() if G.is_directed() else G.to_directed())
+        quiet(lambda: list(_el.generate_snapshots(G))); quiet(lambda: list(_el.generate_interactions(G)))
+        quiet(lambda: __import__("dynetx.readwrite.json_graph.node_link", fromlist=["node_link_data"]).node_link_data(G))
+        return "ok"
+
     def op_clear(self, s):
         self.G(s).clear(); return "ok"
 
